@@ -12,10 +12,10 @@ Proof.
 Qed.
 Lemma fkey_eqb_spec a b : fkey_eqb a b = true <-> a = b.
 Proof.
-  destruct a as [n v f l c], b as [n' v' f' l' c']. unfold fkey_eqb. cbn.
-  rewrite !andb_true_iff, Nat.eqb_eq, onat_eqb_spec, !oN_eqb_spec.
+  destruct a as [n v f l c [s1 s2]], b as [n' v' f' l' c' [s1' s2']]. unfold fkey_eqb. cbn.
+  rewrite !andb_true_iff, !Nat.eqb_eq, onat_eqb_spec, !oN_eqb_spec.
   split.
-  - intros [[[[-> Hv] ->] ->] ->]. destruct v as [x|], v' as [y|]; try discriminate; [apply natinfo_eqb_spec in Hv; subst|]; reflexivity.
+  - intros [[[[[[-> Hv] ->] ->] ->] ->] ->]. destruct v as [x|], v' as [y|]; try discriminate; [apply natinfo_eqb_spec in Hv; subst|]; reflexivity.
   - intros H. inversion H; subst. repeat split. destruct v' as [y|]; [apply natinfo_eqb_spec|]; reflexivity.
 Qed.
 Lemma funckey_eqb_spec a b : funckey_eqb a b = true <-> a = b.
@@ -208,7 +208,7 @@ Proof.
   - cbn. refine (conj W (conj _ (conj (grows_refl t) (conj eq_refl eq_refl)))). discriminate.
 Qed.
 
-Lemma do_req_wf n t r : tt_wf n t -> req_ok n r -> tt_wf n (do_req t r).
+Lemma do_req_wf n t r sc : tt_wf n t -> req_ok n r -> tt_wf n (do_req t r sc).
 Proof.
   intros W Hr.
   destruct r as [s | name | name file line col | lib rel hexname libname | lib rel symaddr symname libname | lib symaddr symname
@@ -250,9 +250,88 @@ Proof.
     intros ni i H H2. destruct (Hv ni H) as [_ H3]. rewrite H3 in H2. inversion H2; subst. rewrite Ns3, Ns2. exact Ins.
 Qed.
 
-Theorem run_reqs_wf n rs : Forall (req_ok n) rs -> tt_wf n (run_reqs rs).
+Theorem run_reqs_wf n rs : Forall (fun r => req_ok n (fst r)) rs -> tt_wf n (run_reqs rs).
 Proof.
-  intros H. unfold run_reqs. assert (G : forall t, tt_wf n t -> tt_wf n (fold_left do_req rs t)).
+  intros H. unfold run_reqs. assert (G : forall t, tt_wf n t -> tt_wf n (fold_left (fun t r => do_req t (fst r) (snd r)) rs t)).
   { induction H as [|r rs Hr _ IH]; intros t W; cbn [fold_left]; [exact W | apply IH; apply do_req_wf; assumption]. }
   apply G. apply tt_empty_wf.
+Qed.
+
+Lemma intern_string_frames t s : tt_frames (snd (intern_string t s)) = tt_frames t.
+Proof. unfold intern_string. destruct (intern N.eqb (tt_strings t) s). reflexivity. Qed.
+Lemma resource_for_lib_frames t lib libname : tt_frames (snd (resource_for_lib t lib libname)) = tt_frames t.
+Proof.
+  unfold resource_for_lib. destruct (index_of Nat.eqb lib (tt_res_lib t)); [reflexivity|].
+  pose proof (intern_string_frames t libname) as H. destruct (intern_string t libname) as [n t1]. cbn [snd tt_frames] in *. exact H.
+Qed.
+Lemma func_for_frames t k libname : tt_frames (snd (func_for t k libname)) = tt_frames t.
+Proof.
+  unfold func_for. destruct (index_of funckey_eqb k (tt_funcs t)); [reflexivity|].
+  destruct (fu_lib k) as [lib|].
+  - pose proof (resource_for_lib_frames t lib libname) as H. destruct (resource_for_lib t lib libname) as [r t']. cbn [snd tt_frames] in *. exact H.
+  - reflexivity.
+Qed.
+Lemma native_symbol_for_frames t lib addr symname : tt_frames (snd (native_symbol_for t lib addr symname)) = tt_frames t.
+Proof.
+  unfold native_symbol_for. destruct (index_of ns_key_eqb (lib, addr) (tt_ns t)); [reflexivity|].
+  pose proof (intern_string_frames t symname) as H. destruct (intern_string t symname) as [n t1]. cbn [snd tt_frames] in *. exact H.
+Qed.
+Lemma intern_opt_frames t s : tt_frames (snd (intern_opt t s)) = tt_frames t.
+Proof.
+  unfold intern_opt. destruct s as [x|]; [|reflexivity].
+  pose proof (intern_string_frames t x) as H. destruct (intern_string t x) as [i t1]. cbn [snd] in *. exact H.
+Qed.
+
+(* the subcategory column of the frame table only holds handles the caller passed in *)
+Lemma frame_for_subs t k libname (P : nat * nat -> Prop) : (forall x, In x (tt_frames t) -> P (fk_sub x)) -> P (fk_sub k) ->
+  forall x, In x (tt_frames (snd (frame_for t k libname))) -> P (fk_sub x).
+Proof.
+  intros H Hk x. unfold frame_for. destruct (index_of fkey_eqb k (tt_frames t)) as [i|] eqn:E; cbn [snd]; [apply H|].
+  destruct (func_for t (mkFu (fk_name k) (fk_file k) (option_map ni_lib (fk_native k))) libname) as [f t1] eqn:E1.
+  cbn [snd tt_frames]. intros Hin. apply in_app_or in Hin. destruct Hin as [Hin|[<-|[]]]; [|exact Hk].
+  apply H. replace (tt_frames t) with (tt_frames t1); [exact Hin|].
+  pose proof (func_for_frames t (mkFu (fk_name k) (fk_file k) (option_map ni_lib (fk_native k))) libname) as Hf. rewrite E1 in Hf. exact Hf.
+Qed.
+
+Lemma do_req_subs t r sc (P : nat * nat -> Prop) : (forall x, In x (tt_frames t) -> P (fk_sub x)) -> P sc -> forall x, In x (tt_frames (do_req t r sc)) -> P (fk_sub x).
+Proof.
+  intros H Hsc.
+  destruct r as [s | name | name file line col | lib rel hexname libname | lib rel symaddr symname libname | lib symaddr symname
+                 | addr hexname nslib nsaddr name file line col depth libname]; cbn [do_req].
+  - rewrite intern_string_frames. exact H.
+  - pose proof (intern_string_frames t name) as E. destruct (intern_string t name) as [i t1]. cbn [snd] in E.
+    apply frame_for_subs; [rewrite E; exact H|exact Hsc].
+  - pose proof (intern_string_frames t name) as E. destruct (intern_string t name) as [i t1]. cbn [snd] in E.
+    pose proof (intern_opt_frames t1 file) as E2. destruct (intern_opt t1 file) as [f t2]. cbn [snd] in E2.
+    apply frame_for_subs; [rewrite E2, E; exact H|exact Hsc].
+  - pose proof (intern_string_frames t hexname) as E. destruct (intern_string t hexname) as [i t1]. cbn [snd] in E.
+    apply frame_for_subs; [rewrite E; exact H|exact Hsc].
+  - pose proof (native_symbol_for_frames t lib symaddr symname) as E. destruct (native_symbol_for t lib symaddr symname) as [ns t1]. cbn [snd] in E.
+    apply frame_for_subs; [rewrite E; exact H|exact Hsc].
+  - rewrite native_symbol_for_frames. exact H.
+  - destruct (index_of ns_key_eqb (nslib, nsaddr) (tt_ns t)) as [ns|]; [|exact H].
+    pose proof (intern_opt_frames t name) as E1. destruct (intern_opt t name) as [nm t1]. cbn [snd] in E1.
+    assert (Step : exists variant nn t2,
+               (match addr with
+                | None => match nm with Some i => (None, i, t1) | None => let '(i, t') := intern_string t1 hexname in (None, i, t') end
+                | Some (lib, rel) => (Some (mkNI lib rel (Some ns) depth), match nm with Some i => i | None => nth ns (tt_ns_name t1) 0 end, t1)
+                end) = (variant, nn, t2) /\ tt_frames t2 = tt_frames t1).
+    { destruct addr as [[lib rel]|]; [eexists _, _, _; split; reflexivity|].
+      destruct nm as [i|]; [eexists _, _, _; split; reflexivity|].
+      pose proof (intern_string_frames t1 hexname) as E2. destruct (intern_string t1 hexname) as [i t']. cbn [snd] in E2.
+      eexists _, _, _. split; [reflexivity|exact E2]. }
+    destruct Step as (variant & nn & t2 & Es & E2). rewrite Es.
+    pose proof (intern_opt_frames t2 file) as E3. destruct (intern_opt t2 file) as [f t3]. cbn [snd] in E3.
+    apply frame_for_subs; [rewrite E3, E2, E1; exact H|exact Hsc].
+Qed.
+
+(* ... for ANY request sequence: every row's (category, subcategory) is the handle some call was given *)
+Theorem run_reqs_subs rs : forall x, In x (tt_frames (run_reqs rs)) -> In (fk_sub x) (map snd rs).
+Proof.
+  unfold run_reqs.
+  assert (G : forall (rs : list (freq * (nat * nat))) t (P : nat * nat -> Prop), (forall x, In x (tt_frames t) -> P (fk_sub x)) -> (forall r, In r rs -> P (snd r)) ->
+              forall x, In x (tt_frames (fold_left (fun t r => do_req t (fst r) (snd r)) rs t)) -> P (fk_sub x)).
+  { clear rs. induction rs as [|r rs IH]; intros t P H Hr; cbn [fold_left]; [exact H|].
+    apply IH; [|intros r' Hin; apply Hr; right; exact Hin]. apply do_req_subs; [exact H|apply Hr; left; reflexivity]. }
+  apply (G rs tt_empty (fun h => In h (map snd rs))); [intros x []|]. intros r Hin. apply in_map. exact Hin.
 Qed.
